@@ -309,7 +309,7 @@ Theorem tokenize_exact s :
   option_map token_prefix (tokenize s) = as_implemented MAX_RULE_TOKENS (spec_tokens s).
 Proof.
   intros Hn Hb. unfold tokenize, spec_tokens.
-  rewrite (tokenize_loop_spec MAX_RULE_TOKENS s [] Hn Hb).
+  etransitivity; [exact (tokenize_loop_spec MAX_RULE_TOKENS s [] Hn Hb)|].
   destruct (as_implemented MAX_RULE_TOKENS (srun SItemStart s)); reflexivity.
 Qed.
 
@@ -320,6 +320,6 @@ Theorem tokenize_agrees s ts e :
   option_map token_prefix (tokenize s) = match e with SEndOk => Some ts | _ => None end.
 Proof.
   intros Hn Hb Hs He Hl. rewrite (tokenize_exact s Hn Hb), Hs. unfold as_implemented.
-  destruct (Nat.leb MAX_RULE_TOKENS (length ts)) eqn:E; [apply Nat.leb_le in E; lia|].
+  destruct (Nat.leb MAX_RULE_TOKENS (length ts)) eqn:E; [apply PeanoNat.Nat.leb_le in E; lia|].
   destruct e; try reflexivity. congruence.
 Qed.
